@@ -255,46 +255,42 @@ Definition right_lvl (o : op) (r : expr) : Z :=
   if op_eqb o BNullish && is_or_and r then LPrefix
   else if is_left_assoc o then op_level o else op_level o - 1.
 
-(* the unparenthesised item list, printed with the inner flag fb (the outer flag, or false inside
-   parentheses); only "new" looks at the level (to decide about "()") *)
-Definition body (fb : bool) (P : Z) (e : expr) : list item :=
+(* the unparenthesised item list, printed with the inner flags fb (forbidIn) and sb (statement start):
+   the outer flags, or false inside parentheses; only "new" looks at the level (to decide about "()") *)
+Definition body (fb sb : bool) (P : Z) (e : expr) : list item :=
   match e with
-  | ENew f a => [INew] ++ print_items false LNew f ++ (if new_parens P a then [ICallOpen] ++ print_items false LComma a ++ [IClose] else [])
-  | EUn o v => match op_kind o with KPost => print_items false (LPostfix - 1) v ++ [IOp o] | _ => [IOp o] ++ print_items false (LPrefix - 1) v end
-  | EBin o l r => print_items fb (left_lvl o l) l ++ [IOp o] ++ print_items fb (right_lvl o r) r
-  | ECond c y n => print_items fb LConditional c ++ [IQuest] ++ print_items false LYield y ++ [IColon] ++ print_items fb LYield n
-  | ECall f a => print_items false LPostfix f ++ [ICallOpen] ++ print_items false LComma a ++ [IClose]
-  | _ => print_items fb P e
+  | ENew f a => [INew] ++ print_items false false LNew f ++ (if new_parens P a then [ICallOpen] ++ print_items false false LComma a ++ [IClose] else [])
+  | EUn o v => match op_kind o with KPost => print_items false sb (LPostfix - 1) v ++ [IOp o] | _ => [IOp o] ++ print_items false false (LPrefix - 1) v end
+  | EBin o l r => print_items fb sb (left_lvl o l) l ++ [IOp o] ++ print_items fb false (right_lvl o r) r
+  | ECond c y n => print_items fb sb LConditional c ++ [IQuest] ++ print_items false false LYield y ++ [IColon] ++ print_items fb false LYield n
+  | ECall f a => print_items false sb LPostfix f ++ [ICallOpen] ++ print_items false false LComma a ++ [IClose]
+  | _ => print_items fb sb P e
   end.
 
 Lemma op_level_pos o : 1 <= op_level o <= 19.
 Proof. destruct o; vm_compute; split; discriminate. Qed.
 
-(* member accesses, atoms and argument lists print the same under either flag *)
-Lemma flag_irrelevant fp P e : compound e = false -> print_items fp P e = print_items false P e.
-Proof. destruct e; intro H; try discriminate; reflexivity. Qed.
-
-Lemma print_items_split fp P e :
-  print_items fp P e = if wrapped fp P e then [IOpen] ++ body false P e ++ [IClose] else body fp P e.
+Lemma print_items_split fp ss P e :
+  print_items fp ss P e = if wrapped fp P e then [IOpen] ++ body false false P e ++ [IClose] else body fp ss P e.
 Proof.
   unfold wrapped, body. destruct e as [s|s|b f|t s|o v|o l r|c0 y0 n0|t0 i0|f0 a0|f0 a0| |x0 r0]; try reflexivity;
     simpl compound; simpl lvl; simpl is_in; cbn [Token.print_items]; cbv zeta; unfold paren, left_lvl, right_lvl, new_parens.
-  - rewrite orb_false_r. destruct (P >=? op_level o); reflexivity.
-  - destruct (P >=? op_level o); destruct fp; destruct (op_eqb o BIn); reflexivity.
-  - rewrite orb_false_r. destruct (P >=? LConditional); destruct fp; reflexivity.
-  - rewrite orb_false_r. destruct (P >=? LNew); reflexivity.
+  - rewrite orb_false_r. destruct (P >=? op_level o); simpl negb; rewrite ?andb_false_r, ?andb_true_r; reflexivity.
+  - destruct (P >=? op_level o); destruct fp; destruct (op_eqb o BIn); simpl; rewrite ?andb_false_r, ?andb_true_r; reflexivity.
+  - rewrite orb_false_r. destruct (P >=? LConditional); destruct fp; simpl; rewrite ?andb_false_r, ?andb_true_r; reflexivity.
+  - rewrite orb_false_r. destruct (P >=? LNew); simpl; rewrite ?andb_false_r, ?andb_true_r; reflexivity.
   - rewrite orb_false_r. destruct (P >=? LCall); reflexivity.
 Qed.
 
-Lemma body_cond fb P c y n : body fb P (ECond c y n) =
-  print_items fb LConditional c ++ [IQuest] ++ print_items false LYield y ++ [IColon] ++ print_items fb LYield n.
+Lemma body_cond fb sb P c y n : body fb sb P (ECond c y n) =
+  print_items fb sb LConditional c ++ [IQuest] ++ print_items false false LYield y ++ [IColon] ++ print_items fb false LYield n.
 Proof. reflexivity. Qed.
-Lemma body_call fb P f a : body fb P (ECall f a) = print_items false LPostfix f ++ [ICallOpen] ++ print_items false LComma a ++ [IClose].
+Lemma body_call fb sb P f a : body fb sb P (ECall f a) = print_items false sb LPostfix f ++ [ICallOpen] ++ print_items false false LComma a ++ [IClose].
 Proof. reflexivity. Qed.
-Lemma body_bin fb P o l r : body fb P (EBin o l r) = print_items fb (left_lvl o l) l ++ [IOp o] ++ print_items fb (right_lvl o r) r.
+Lemma body_bin fb sb P o l r : body fb sb P (EBin o l r) = print_items fb sb (left_lvl o l) l ++ [IOp o] ++ print_items fb false (right_lvl o r) r.
 Proof. reflexivity. Qed.
-Lemma body_un fb P o v : body fb P (EUn o v) =
-  match op_kind o with KPost => print_items false (LPostfix - 1) v ++ [IOp o] | _ => [IOp o] ++ print_items false (LPrefix - 1) v end.
+Lemma body_un fb sb P o v : body fb sb P (EUn o v) =
+  match op_kind o with KPost => print_items false sb (LPostfix - 1) v ++ [IOp o] | _ => [IOp o] ++ print_items false false (LPrefix - 1) v end.
 Proof. reflexivity. Qed.
 
 Lemma toks_app a b : toks (a ++ b) = toks a ++ toks b.
